@@ -116,15 +116,44 @@ theorem admRefB_sound (hwf : WF C) {net : Net} (hinv : NetInv C hwf net) {r : Bl
 def gateB (c : Cfg) : Event → Bool
   | .start _ => false
   | .deliver m => msgInstT m == c.inst && msgHeightT m == c.height && msgSenderId m != c.me
-      && (match m with | .viewChange _ => false | _ => true)
+      && (match m with
+          | .viewChange x => (match x.block with | some b => b.hash != emptyBytes | none => true)
+          | _ => true)
   | _ => true
 
-/-- admissibility, decided for PREPREPARE / PREPARE / COMMIT deliveries, election triggers and cancellations -/
+/-- some started correct member has sent exactly this message -/
+def sentB (C : NetCfg) (started : Nat → Bool) (outs : Nat → List Out) (m : Message) : Bool :=
+  C.ms.any (fun x => C.honest x.id && started x.id
+    && (outs x.id).any (fun o => match o with | .send _ m' => decide (m' = m) | _ => false))
+
+/-- whatever a correct member sent may be delivered: it is admissible (`NodeInv.sends`) -/
+theorem sentB_sound (hwf : WF C) {net : Net} (hinv : NetInv C hwf net) {m : Message}
+    (h : sentB C net.started net.outs m = true) : AdmMsg C net.H m := by
+  unfold sentB at h
+  rw [List.any_eq_true] at h
+  obtain ⟨x, hx, hc⟩ := h
+  simp only [Bool.and_eq_true, List.any_eq_true] at hc
+  obtain ⟨⟨hh, hs⟩, o, ho, hm⟩ := hc
+  cases o with
+  | send rcpt m' =>
+    simp only [decide_eq_true_eq] at hm
+    subst hm
+    exact (hinv.nodes x.id hh ⟨x, hx, rfl⟩ hs).sends rcpt m' ho
+  | commit _ _ => simp at hm
+  | registerElection _ _ => simp at hm
+  | callRequest _ => simp at hm
+  | callValidate _ _ _ => simp at hm
+  | goPanic _ => simp at hm
+
+/-- admissibility, decided for deliveries of messages a correct member sent (any kind), for forged
+PREPREPARE / PREPARE / COMMIT deliveries, election triggers and cancellations -/
 def admB (C : NetCfg) (started : Nat → Bool) (outs : Nat → List Out) : Event → Bool
-  | .deliver (.preprepare m) => admRefB C started outs m.c.header m.c.sender
-  | .deliver (.prepare m) => admRefB C started outs m.header m.sender
-  | .deliver (.commit m) => admRefB C started outs m.header m.sender
-  | .deliver _ => false
+  | .deliver m => sentB C started outs m ||
+      (match m with
+       | .preprepare m => admRefB C started outs m.c.header m.c.sender
+       | .prepare m => admRefB C started outs m.header m.sender
+       | .commit m => admRefB C started outs m.header m.sender
+       | _ => false)
   | .start _ => false
   | _ => true
 
@@ -166,7 +195,11 @@ theorem gateB_sound {c : Cfg} {e : Event} (h : gateB c e = true) : Gate c e ∧ 
     simp only [gateB, Bool.and_eq_true, beq_iff_eq, bne_iff_ne, ne_eq] at h
     refine ⟨h.1.1.1, h.1.1.2, h.1.2, ?_⟩
     cases m with
-    | viewChange x => simp at h
+    | viewChange x =>
+      intro b hb
+      have h2 := h.2
+      simp only [hb, bne_iff_ne, ne_eq] at h2
+      exact h2
     | preprepare x => trivial
     | prepare x => trivial
     | commit x => trivial
@@ -179,12 +212,15 @@ theorem admB_sound (hwf : WF C) {net : Net} (hinv : NetInv C hwf net) {e : Event
   | election _ _ => trivial
   | cancelOlder _ _ => trivial
   | deliver m =>
-    cases m with
-    | preprepare x => exact admRefB_sound hwf hinv h
-    | prepare x => exact admRefB_sound hwf hinv h
-    | commit x => exact admRefB_sound hwf hinv h
-    | viewChange x => simp [admB] at h
-    | newView x => simp [admB] at h
+    simp only [admB, Bool.or_eq_true] at h
+    rcases h with h | h
+    · exact sentB_sound hwf hinv h
+    · cases m with
+      | preprepare x => exact admRefB_sound hwf hinv h
+      | prepare x => exact admRefB_sound hwf hinv h
+      | commit x => exact admRefB_sound hwf hinv h
+      | viewChange x => simp at h
+      | newView x => simp at h
 
 /-- **a schedule whose steps all pass the decidable checks is an execution of the network model** -/
 theorem sim_reach (hwf : WF C) (xs : List SStep) : ∀ (s : SimState) (net : Net), Reach C net → Agrees net s →
